@@ -43,6 +43,9 @@ func runConfig(prop, tier, goos, goarch string) *childOut {
 	c := &Ctx{Program: p, Prop: prop, Tier: tier}
 	props[prop].run(c)
 	out.Obs, out.Anchors, out.Notes = c.Obs, c.Anchors, c.Notes
+	if p.NormalisationError != "" {
+		out.Notes = append(out.Notes, fmt.Sprintf("%s/%s: the expansion of new helpers failed (%s); the tree was analysed as it is — rules anchored on a function whose body moved into a new helper may report constructs as missing", goos, goarch, p.NormalisationError))
+	}
 	if p.Inlined > 0 || len(p.NewKept) > 0 {
 		out.Notes = append(out.Notes, fmt.Sprintf("%s/%s: %d call(s) of functions the reference tree does not have were expanded into their callers before the rules ran (fully expanded: %s; kept as functions: %s)", goos, goarch, p.Inlined, strings.Join(p.InlinedAway, ", "), strings.Join(p.NewKept, ", ")))
 	}
